@@ -1,7 +1,10 @@
 import Mieru.Gen.Consts
+import Mieru.Gen.FactsC19
+import Mieru.Proofs.Registry
 import Mieru.Proofs.Counter
 import Mieru.Proofs.CounterSearch
 import Mieru.Proofs.Quota
+import Mieru.Proofs.Acct
 /-!
 # C19 — accounting is conserved by compaction; quotas bind exactly the user who exceeded them
 
@@ -10,13 +13,16 @@ and `Mieru.Quota` (model of `checkQuota` / the refusal in `inputData`), both tie
 correspondence run of `harness/props/c19.go`; the roll-up constants are tied to the REGENERATED
 constants (`counter_constants`).
 
-Whole-system part (a refused session relays nothing; bytes read/written by the application are added
-once to the right user's counters): NOT here — it needs the in-memory network of the integrator; see
-docs/notes/C19.md (TODO, with the code path of the known deviation: the piggy-backed payload of a
-refused open request is still readable by the server application).
+Session level (round 3): `Mieru.Acct` is a transition system over the receive side of every server
+session (`recvQueue`, `unreadBuf`), its owner, its close status and the per-user counter registry —
+`Session.Read` / `Session.Write` / `Session.input` with the quota check of `inputData` — tied to the
+real sessions operation by operation (harness/props/c19_acct.go) and to regenerated structural facts
+(`Mieru.Gen.FactsC19`). The theorems of the second half of this file are statements about TRACES of
+that system: what `Read` returned, what `Write` accepted, what was refused.
 -/
 namespace Mieru.C19
 open Mieru.Counter Mieru.Quota Mieru.Proofs.Counter Mieru.Proofs.Quota
+open Mieru.Acct Mieru.Proofs.Acct
 
 /-- Roll-up preserves the sum: ARBITRARY history (any order, any labels, any deltas), arbitrary `now`. -/
 theorem rollup_sum (now : Int) (h : List Entry) : sumD (rollUp now h) = sumD h :=
@@ -29,7 +35,7 @@ theorem rollup_pass_sum (p : Pass) (now : Int) (h : List Entry) : sumD (doRollUp
 /-- Σ increments = value, and for a time-series counter Σ history = value — after any history of
     increments (arbitrary timestamps, arbitrary clock readings), `op`-only calls and window queries,
     with roll-ups wherever the operation counter puts them. -/
-theorem add_invariant (ts : Bool) (ops : List Op) (hnl : ∀ o ∈ ops, isLoad o = false) :
+theorem add_invariant (ts : Bool) (ops : List Counter.Op) (hnl : ∀ o ∈ ops, isLoad o = false) :
     (runOps (new ts) ops).value = addedBy ops ∧
     (ts = true → sumD (runOps (new ts) ops).hist = (runOps (new ts) ops).value) := by
   suffices H : ∀ (c : Counter), (c.ts = true → sumD c.hist = c.value) →
@@ -65,7 +71,7 @@ theorem add_invariant (ts : Bool) (ops : List Op) (hnl : ∀ o ∈ ops, isLoad o
 /-- With dumps being loaded (each dump consistent: its value is the sum of its history) the
     invariant weakens to Σ history ≤ value: loading a dump with a smaller total over a larger live
     counter keeps the live value and takes the dump's history. -/
-theorem add_invariant_with_loads (ops : List Op) (hcl : ConsistentLoads ops) :
+theorem add_invariant_with_loads (ops : List Counter.Op) (hcl : ConsistentLoads ops) :
     sumD (runOps (new true) ops).hist ≤ (runOps (new true) ops).value := by
   suffices H : ∀ (c : Counter), c.ts = true → sumD c.hist ≤ c.value →
       sumD (runOps c ops).hist ≤ (runOps c ops).value by
@@ -100,7 +106,7 @@ theorem rollup_pass_sorted (p : Pass) (hp : PassOK p) (now : Int) (h : List Entr
 /-- Every history reachable by increments whose timestamps never go backwards (bursts within one
     millisecond included), `op`-only calls, window queries and roll-ups at arbitrary `now` is
     well-formed, hence sorted by time. -/
-theorem history_sorted (ts : Bool) (lo : Int) (ops : List Op) (hm : MonoAdds lo ops) :
+theorem history_sorted (ts : Bool) (lo : Int) (ops : List Counter.Op) (hm : MonoAdds lo ops) :
     Sorted (runOps (new ts) ops).hist := by
   suffices H : ∀ (c : Counter) (lo : Int), MonoAdds lo ops → WF c.hist → (∀ e ∈ c.hist, e.t ≤ lo) →
       WF (runOps c ops).hist by
@@ -129,7 +135,7 @@ theorem window_le_total (c : Counter) (t1 t2 : Int) (hn : NonNeg c.hist) (hinv :
   exact ⟨range_nonneg _ _ _ hn, Int.le_trans (range_le_total _ _ _ hn) hinv⟩
 
 /-- … for every counter reachable by non-negative increments (and consistent, non-negative dumps). -/
-theorem window_le_total_reachable (ops : List Op) (hcl : ConsistentLoads ops) (hnn : NonNegOps ops) (t1 t2 : Int) :
+theorem window_le_total_reachable (ops : List Counter.Op) (hcl : ConsistentLoads ops) (hnn : NonNegOps ops) (t1 t2 : Int) :
     (deltaBetween (runOps (new true) ops) t1 t2).2 ≤ (runOps (new true) ops).value :=
   (window_le_total _ t1 t2 (runOps_nonNeg ops hnn) (add_invariant_with_loads ops hcl)).2
 
@@ -145,7 +151,7 @@ theorem load_monotone (c : Counter) (srcValue : Int) (srcHist : List Entry) (now
   omega
 
 /-- No operation with a non-negative increment ever decreases the value. -/
-theorem value_monotone (c : Counter) (o : Op) (hnn : NonNegOps [o]) : c.value ≤ (apply c o).value := by
+theorem value_monotone (c : Counter) (o : Counter.Op) (hnn : NonNegOps [o]) : c.value ≤ (apply c o).value := by
   cases o with
   | add d t now => simp only [NonNegOps] at hnn; simp only [apply, addWithTime_value]; omega
   | tick n => simp [apply, tick]
@@ -180,28 +186,360 @@ theorem quota_within_allowance (sv : Server) (user : String) (now : Int) (p : Po
     refused sv user now = false :=
   within_allowance sv user now p m hp hm hup hdown hall
 
-/-- A refused open-session request carries the quota status and relays NOTHING to the server
-    application, whatever payload the client piggy-backed on the request; a request within the
-    allowance relays exactly the payload. (Full strength; the code used to queue the payload before
-    evaluating the quota — repaired by the `fix:` commit recorded in known_findings.txt.) -/
-theorem quota_refused_nothing_relayed (sv : Server) (user : String) (payload : List UInt8) (now : Int) :
-    ((onOpenRequest sv user payload now).refused = true →
-      (onOpenRequest sv user payload now).status = Mieru.Gen.statusQuotaExhausted.toNat ∧
-      (onOpenRequest sv user payload now).readable = []) ∧
-    ((onOpenRequest sv user payload now).refused = false →
-      (onOpenRequest sv user payload now).readable = payload) := by
-  simp only [onOpenRequest]
-  constructor
-  · intro h; simp [h, statusQuotaExhausted, Mieru.Gen.statusQuotaExhausted]
-  · intro h; simp [h]
+/-! ## Session level: every byte handed to / accepted from the application is counted once, against
+    the session's user; a refused session relays nothing -/
 
-/-- Regression witness of the repaired defect: user "a", 1 MB / 1 day quota, 2 MiB counted, a 3-byte
-    payload on the open request: refused, and nothing is readable. -/
-example :
-    let sv : Server := { policies := fun u => if u = "a" then some ⟨"a", [⟨1, 1⟩]⟩ else none,
-                         metrics := fun u => if u = "a" then some ⟨[⟨1000, 2097152, 0⟩], []⟩ else none }
-    (onOpenRequest sv "a" [1, 2, 3] (2000 * nsPerMs)).refused = true ∧
-    (onOpenRequest sv "a" [1, 2, 3] (2000 * nsPerMs)).readable = [] := by decide
+/-- Exactly once, in order, for ARBITRARY buffer sizes: at every point of every history the bytes the
+    application has read from session `i`, followed by what the session still holds (`unreadBuf`, then
+    `recvQueue`), are exactly the payloads `input` queued for it — nothing is lost, duplicated or
+    reordered by short reads, reads spanning several segments, empty payloads or empty buffers. -/
+theorem read_exactly_once (w : World) (ops : List Acct.Op) (i : Nat) :
+    bytesRead i (run w ops).2 ++ pending (run w ops).1 i = pending w i ++ bytesQueued i (run w ops).2 :=
+  run_stream w ops i
+
+/-- … and a single `Read(b)` never returns more than `len(b)` bytes, returns at least one byte unless
+    it reaches the blocking `select`, and reaches it only with nothing copied. -/
+theorem read_call (cap : Nat) (hc : 0 < cap) (unread : Bytes) (queue : List Bytes) :
+    (readLoop cap unread queue).got.length ≤ cap ∧
+    ((readLoop cap unread queue).blocked = true → (readLoop cap unread queue).got = []) ∧
+    (readLoop cap unread queue).got ++ (readLoop cap unread queue).unread ++ (readLoop cap unread queue).queue.flatten
+      = unread ++ queue.flatten :=
+  ⟨readLoop_len cap unread queue, readLoop_blocked cap hc unread queue, readLoop_conserve cap unread queue⟩
+
+/-- FULL-STRENGTH accounting statement: after ANY history of operations on any number of server
+    sessions of any users, every user's `UploadBytes` is the number of bytes `Read` returned on the
+    sessions that user owns and `DownloadBytes` the number of bytes `Write` accepted on them. -/
+def accounting_conserved_full : Prop :=
+  ∀ (pol : String → Option Policy) (ops : List Acct.Op) (u : String),
+    upVal (run (World.empty pol) ops).1 u
+      = readBy (owner (run (World.empty pol) ops).1) u (run (World.empty pol) ops).2 ∧
+    downVal (run (World.empty pol) ops).1 u
+      = writtenBy (owner (run (World.empty pol) ops).1) u (run (World.empty pol) ops).2
+
+/-- The upload half holds at full strength: a session that has not yet processed an authenticated
+    segment has nothing to hand to its application. -/
+theorem accounting_upload_conserved (pol : String → Option Policy) (ops : List Acct.Op) (u : String) :
+    upVal (run (World.empty pol) ops).1 u
+      = readBy (owner (run (World.empty pol) ops).1) u (run (World.empty pol) ops).2 := by
+  have := run_up (World.empty pol) ops (Inv_empty pol) u
+  simpa [upVal, upValM, World.empty] using this
+
+/-- Both halves, PROVIDED no `Write` is issued on a session before its input loop has processed the
+    first authenticated segment (`WritesAuth`): until then `downloadBytes` is nil and the bytes `Write`
+    accepts are counted for nobody — see `accounting_unauthenticated_write_counterexample`. -/
+theorem accounting_conserved_partial (pol : String → Option Policy) (ops : List Acct.Op)
+    (hauth : WritesAuth (World.empty pol) ops) (u : String) :
+    upVal (run (World.empty pol) ops).1 u
+      = readBy (owner (run (World.empty pol) ops).1) u (run (World.empty pol) ops).2 ∧
+    downVal (run (World.empty pol) ops).1 u
+      = writtenBy (owner (run (World.empty pol) ops).1) u (run (World.empty pol) ops).2 := by
+  have := run_vals (World.empty pol) ops (Inv_empty pol) hauth u
+  simpa [upVal, upValM, downVal, downValM, World.empty] using this
+
+/-- … from any consistent world (e.g. counters loaded from a dump): the counters GROW by exactly the
+    bytes returned / accepted. -/
+theorem accounting_conserved_from (w : World) (hi : Inv w) (ops : List Acct.Op) (hauth : WritesAuth w ops) (u : String) :
+    upVal (run w ops).1 u = upVal w u + readBy (owner (run w ops).1) u (run w ops).2 ∧
+    downVal (run w ops).1 u = downVal w u + writtenBy (owner (run w ops).1) u (run w ops).2 :=
+  run_vals w ops hi hauth u
+
+/-- The witness: a session is accepted, its application writes 100 bytes before the input loop has
+    processed the open request, then the request (user "a") is processed: 100 bytes were accepted on a
+    session owned by "a", "a"'s download counter is 0. -/
+theorem accounting_unauthenticated_write_counterexample :
+    let ops : List Acct.Op := [.newSess, .write 0 100 1 0, .input 0 "a" true [] 0]
+    let r := run (World.empty fun _ => none) ops
+    owner r.1 0 = some "a" ∧ writtenBy (owner r.1) "a" r.2 = 100 ∧ downVal r.1 "a" = 0 ∧
+    ¬ accounting_conserved_full := by
+  have h : owner (run (World.empty fun _ => none) [.newSess, .write 0 100 1 0, .input 0 "a" true [] 0]).1 0 = some "a" ∧
+      writtenBy (owner (run (World.empty fun _ => none) [.newSess, .write 0 100 1 0, .input 0 "a" true [] 0]).1) "a"
+        (run (World.empty fun _ => none) [.newSess, .write 0 100 1 0, .input 0 "a" true [] 0]).2 = 100 ∧
+      downVal (run (World.empty fun _ => none) [.newSess, .write 0 100 1 0, .input 0 "a" true [] 0]).1 "a" = 0 := by
+    decide
+  refine ⟨h.1, h.2.1, h.2.2, ?_⟩
+  intro hfull
+  have := (hfull (fun _ => none) [.newSess, .write 0 100 1 0, .input 0 "a" true [] 0] "a").2
+  rw [h.2.1, h.2.2] at this
+  omega
+
+/-- What `checkQuota` sums is what was counted: every registered counter of a reachable world is a
+    time-series counter whose history sums to its value, with non-negative entries — so every window
+    it reports is between 0 and the user's counted traffic (`window_le_total`). -/
+theorem accounting_history_consistent (pol : String → Option Policy) (ops : List Acct.Op) (u : String) (p : Pair)
+    (hp : (run (World.empty pol) ops).1.metrics.get u = some p) (t1 t2 : Int) :
+    sumD p.1.hist = p.1.value ∧ sumD p.2.hist = p.2.value ∧
+    0 ≤ window p.1.hist t1 t2 ∧ window p.1.hist t1 t2 ≤ p.1.value ∧
+    0 ≤ window p.2.hist t1 t2 ∧ window p.2.hist t1 t2 ≤ p.2.value := by
+  have hok := run_metricsOK (World.empty pol) ops (by intro v q hq; simp [World.empty] at hq) u p hp
+  obtain ⟨⟨_, h1, n1⟩, ⟨_, h2, n2⟩⟩ := hok
+  have w1 := window_le_total p.1 t1 t2 n1 (by omega)
+  have w2 := window_le_total p.2 t1 t2 n2 (by omega)
+  simp only [deltaBetween] at w1 w2
+  exact ⟨h1, h2, w1.1, w1.2, w2.1, w2.2⟩
+
+/-- When exactly an open-session request is refused (the session was created for this request and is
+    still attached; the request is its first segment): iff the quota decision — evaluated on the
+    registry as it is once the user's counters are registered — says so; and then NOTHING is queued,
+    the session carries the quota status and is closed. Otherwise the payload is queued, whole. -/
+theorem quota_open_request (w : World) (i : Nat) (s : Sess) (hs : w.sess[i]? = some s)
+    (hst : s.state = stAttached) (hnp : ¬ inputPanics s user) (payload : Bytes) (now : Int) :
+    (refused (World.server { w with metrics := register w.metrics user }) user now = true →
+      (step w (.input i user true payload now)).2 = [.refused i] ∧
+      (step w (.input i user true payload now)).1.sess[i]? = some (refusedSess s user) ∧
+      (refusedSess s user).status = Mieru.Gen.statusQuotaExhausted.toNat ∧
+      (refusedSess s user).queue = s.queue) ∧
+    (refused (World.server { w with metrics := register w.metrics user }) user now = false →
+      (step w (.input i user true payload now)).2 = [.queued i payload] ∧
+      (step w (.input i user true payload now)).1.sess[i]? = some (acceptedSess s user true payload)) := by
+  have hlt := sess_lt w i s hs
+  have hne : ¬ (stAttached = stClosed) := by decide
+  constructor
+  · intro hr
+    simp only [step, hs, inputOn, hne, hnp, hst, hr, if_false, if_true, and_self]
+    refine ⟨trivial, ?_, by simp [refusedSess, statusQuotaExhausted, Mieru.Gen.statusQuotaExhausted], by simp [refusedSess]⟩
+    simp [setSess, hlt]
+  · intro hr
+    simp only [step, hs, inputOn, hne, hnp, hst, hr, if_false, and_false, Bool.false_eq_true]
+    refine ⟨trivial, ?_⟩
+    simp [setSess, hlt]
+
+/-- A refused session relays NOTHING, in either direction, for EVERY continuation of the history:
+    every later `Read` on it returns no bytes, every later `Write` accepts none, nothing is queued
+    for it any more, it stays closed with the quota status — whatever payload the client piggy-backed
+    on the request, whatever else arrives for the session, whatever the other sessions do.
+    (Full strength; the code used to queue the payload before evaluating the quota — repaired by the
+    `fix:` commit recorded in known_findings.txt.) -/
+theorem quota_refused_relays_nothing (w : World) (i : Nat) (s : Sess) (hs : w.sess[i]? = some s)
+    (hst : s.state = stAttached) (hq : s.queue = []) (hu : s.unread = []) (hnp : ¬ inputPanics s user)
+    (payload : Bytes) (now : Int)
+    (href : refused (World.server { w with metrics := register w.metrics user }) user now = true)
+    (ops : List Acct.Op) :
+    bytesRead i (run w (.input i user true payload now :: ops)).2 = [] ∧
+    bytesQueued i (run w (.input i user true payload now :: ops)).2 = [] ∧
+    (∀ n, Ev.writeRet i n ∈ (run w (.input i user true payload now :: ops)).2 → n = 0) ∧
+    Dead (run w (.input i user true payload now :: ops)).1 i := by
+  obtain ⟨hev, hsess, _, _⟩ := (quota_open_request w i s hs hst hnp payload now).1 href
+  have hdead : Dead (step w (.input i user true payload now)).1 i :=
+    ⟨refusedSess s user, hsess, rfl, rfl, by simp [refusedSess, hq], by simp [refusedSess, hu], rfl⟩
+  obtain ⟨g1, g2, g3, g4⟩ := run_dead _ ops i hdead
+  refine ⟨?_, ?_, ?_, g1⟩
+  · simp only [run, bytesRead_append, hev, g2]; simp [bytesRead]
+  · simp only [run, bytesQueued_append, hev, g4]; simp [bytesQueued]
+  · intro n hn
+    simp only [run, hev, List.mem_append] at hn
+    rcases hn with hn | hn
+    · simp at hn
+    · exact g3 n hn
+
+/-- Users within their allowance are never refused — stated over the bytes ACTUALLY MOVED: after any
+    history, a user whose sessions' applications have read and written (in total, ever) no more than
+    every allowance of its policy is not refused, at any instant. (Composition of the conservation
+    theorem, the registry consistency and `quota_within_allowance`.) -/
+theorem quota_within_allowance_by_traffic (pol : String → Option Policy) (ops : List Acct.Op)
+    (hauth : WritesAuth (World.empty pol) ops) (u : String) (now : Int)
+    (hall : ∀ p, pol u = some p → ∀ q ∈ p.quotas,
+      (readBy (owner (run (World.empty pol) ops).1) u (run (World.empty pol) ops).2 +
+       writtenBy (owner (run (World.empty pol) ops).1) u (run (World.empty pol) ops).2) / bytesPerMB ≤ q.megabytes) :
+    refused (run (World.empty pol) ops).1.server u now = false := by
+  have hpol : (run (World.empty pol) ops).1.policies = pol := run_policies _ ops
+  cases hm : (run (World.empty pol) ops).1.metrics.get u with
+  | none =>
+    cases hr : refused (run (World.empty pol) ops).1.server u now with
+    | false => rfl
+    | true =>
+      obtain ⟨_, _, m, _, _, hm', _⟩ := (refused_iff _ u now).mp hr
+      simp [World.server, hm] at hm'
+  | some pr =>
+    cases hp : pol u with
+    | none =>
+      cases hr : refused (run (World.empty pol) ops).1.server u now with
+      | false => rfl
+      | true =>
+        obtain ⟨_, p', _, hp', _⟩ := (refused_iff _ u now).mp hr
+        simp [World.server, hpol, hp] at hp'
+    | some p =>
+      have hok := run_metricsOK (World.empty pol) ops (by intro v q hq; simp [World.empty] at hq) u pr hm
+      obtain ⟨⟨_, h1, n1⟩, ⟨_, h2, n2⟩⟩ := hok
+      have hv := accounting_conserved_partial pol ops hauth u
+      simp only [upVal, upValM, downVal, downValM, hm] at hv
+      apply within_allowance _ u now p ⟨pr.1.hist, pr.2.hist⟩
+      · simp [World.server, hpol, hp]
+      · simp [World.server, hm]
+      · exact n1
+      · exact n2
+      · intro q hq
+        have := hall p hp q hq
+        simp only [h1, h2, hv.1, hv.2]
+        exact this
+
+/-- … and other users in any case: whatever other users do — any number of sessions, any traffic,
+    any refusals — changes neither `u`'s counters nor any decision about `u`. -/
+theorem quota_isolated_by_traffic (w : World) (u : String) (ops : List Acct.Op) (hf : Foreign w u ops) (now : Int) :
+    (run w ops).1.metrics.get u = w.metrics.get u ∧
+    refused (run w ops).1.server u now = refused w.server u now := by
+  have hm := run_foreign w ops u hf
+  refine ⟨hm, refused_congr _ _ u now ?_ ?_⟩
+  · simp [World.server, run_policies]
+  · simp [World.server, hm]
+
+
+/-! ## Concurrent registration: every session obtains the published counter -/
+
+open Mieru.Registry in
+/-- "Sessions opened concurrently with accounting": for ANY number of sessions registering the same
+    not-yet-existing metric and ANY interleaving of their atomic steps, with a registration that
+    publishes only through `LoadOrStore` (no plain `Store`): every call that has returned holds the
+    published counter — so all callers hold the same one — and every byte count added went to it:
+    what the registry, the dump and `checkQuota` see is everything that was added. -/
+theorem register_every_caller_gets_published (prog : List Instr) (hp : Instr.storeOwn ∉ prog) (n : Nat) (sched : List Nat) :
+    (∀ (i : Nat) (t : Thread), (run prog (init n) sched).threads[i]? = some t →
+        ∀ r, t.ret = some r → (run prog (init n) sched).slot = some r) ∧
+    visibleAdds (run prog (init n) sched) = doneAdds (run prog (init n) sched) := by
+  have h := Mieru.Proofs.Registry.run_inv prog hp (init n) sched (Mieru.Proofs.Registry.inv_init n)
+  exact ⟨h.1, Mieru.Proofs.Registry.visible_eq_done _ h⟩
+
+open Mieru.Registry in
+/-- The code has that shape — REGENERATED: the only `sync.Map` method `RegisterMetric` calls on the
+    metric slot is one `LoadOrStore`, what it returns is that call's first result, and the group slot
+    is published the same way. (A `Load` fast path followed by `Store`, seeded/C19-5, changes the
+    regenerated lists and this stops building.) -/
+theorem register_metric_shape :
+    shapeOfCalls Mieru.Gen.FactsC19.registerMetricSlotCalls = some codeShape ∧
+    Instr.storeOwn ∉ codeShape ∧
+    Mieru.Gen.FactsC19.registerMetricReturns = [("metric.(Metric)", "metricGroup.metrics.LoadOrStore", "0")] ∧
+    Mieru.Gen.FactsC19.registerMetricGroupCalls = ["LoadOrStore"] := by decide
+
+open Mieru.Registry in
+/-- Why the shape matters: with check-then-store two sessions interleave so that both miss, both
+    store; the first caller keeps a counter the registry no longer holds and its bytes are counted
+    against nobody (2 added, 1 visible). -/
+theorem register_check_then_store_counterexample :
+    let st := run racyShape (init 2) [0, 1, 0, 1, 0, 1, 0, 1]
+    (st.threads.map (·.ret)) = [some 0, some 1] ∧ st.slot = some 1 ∧ doneAdds st = 2 ∧ visibleAdds st = 1 := by decide
+
+/-- Each session keeps the counters `input` registered for the user of ITS cipher block, upload with
+    upload and download with download, both time series — REGENERATED from `Session.input`. -/
+theorem session_metric_registration :
+    Mieru.Gen.FactsC19.sessionMetricRegistrations =
+      [("s.uploadBytes", "fmt.Sprintf(metrics.UserMetricGroupFormat, (*s.block.Load()).BlockContext().UserName)",
+        "metrics.UserMetricUploadBytes", "metrics.COUNTER_TIME_SERIES"),
+       ("s.downloadBytes", "fmt.Sprintf(metrics.UserMetricGroupFormat, (*s.block.Load()).BlockContext().UserName)",
+        "metrics.UserMetricDownloadBytes", "metrics.COUNTER_TIME_SERIES")] := by decide
+
+/-! ## Regenerated structure of Read / Write / inputData / checkQuota / rollUp / DeltaBetween -/
+
+/-- `Session.Read`: the only `return` with a non-zero count is the final `n, nil`, directly preceded
+    by `if !s.isClient && s.uploadBytes != nil { s.uploadBytes.Add(int64(n)) }`; `n` only ever grows by
+    what `copy` put into `b[n:]`, from `unreadBuf` or from a dequeued payload — the shape `readLoop`
+    and `readOn` model. (seeded/C19-1 — counting only what was copied out of dequeued segments —
+    changes `readAdds`.) -/
+theorem read_accounting_placement :
+    Mieru.Gen.FactsC19.readReturns =
+      [("0, nil", "no", "len(b) == 0"), ("0, io.EOF", "no", ""), ("0, io.ErrUnexpectedEOF", "no", ""),
+       ("0, stderror.ErrTimeout", "no", ""), ("n, nil", "yes", "")] ∧
+    Mieru.Gen.FactsC19.readAdds = [("!s.isClient && s.uploadBytes != nil", "s.uploadBytes", "int64(n)")] ∧
+    Mieru.Gen.FactsC19.readCopies = [("b[n:]", "s.unreadBuf"), ("b[n:]", "seg.payload")] ∧
+    Mieru.Gen.FactsC19.readNUpdates = ["n += copied", "n += copied"] := by decide
+
+/-- `Session.Write`: every `return` that can carry a non-zero count — the early one when a later chunk
+    fails (the round-3 `fix:`) and the final one — is directly preceded by the `Add(int64(n))` to
+    `s.downloadBytes`; the only other one is on the client-only open-request path; `n` grows by the
+    chunk size only. -/
+theorem write_accounting_placement :
+    Mieru.Gen.FactsC19.writeReturns =
+      [("0, io.ErrClosedPipe", "no", "s.closeRequested.Load()"),
+       ("0, fmt.Errorf(\"%v is not ready for Write()\", s)", "no", "s.isStateBefore(sessionAttached, false)"),
+       ("0, io.ErrClosedPipe", "no", "s.isStateAfter(sessionClosed, true)"),
+       ("0, fmt.Errorf(\"insert %v to send queue failed\", seg)", "no",
+        "s.isClient && s.isState(sessionAttached) && !s.openSessionRequestSent.Swap(true) && !s.sendQueue.Insert(seg)"),
+       ("len(seg.payload), nil", "no",
+        "s.isClient && s.isState(sessionAttached) && !s.openSessionRequestSent.Swap(true) && len(seg.payload) > 0"),
+       ("n, err", "yes", "sent == 0 || err != nil"), ("n, nil", "yes", "")] ∧
+    Mieru.Gen.FactsC19.writeAdds =
+      [("!s.isClient && s.downloadBytes != nil", "s.downloadBytes", "int64(n)"),
+       ("!s.isClient && s.downloadBytes != nil", "s.downloadBytes", "int64(n)")] ∧
+    Mieru.Gen.FactsC19.writeNUpdates = ["n += sizeToSend"] ∧
+    (maxPDU : Int) = Mieru.Gen.maxPDU := by decide
+
+/-- `Session.inputData`: the quota check is the FIRST statement, before any insertion into
+    `recvQueue` / `recvBuf`; its refusal branch sets the status, closes and RETURNS — the repaired
+    order that `inputOn` models. -/
+theorem quota_check_placement :
+    Mieru.Gen.FactsC19.inputDataFirstIf =
+      "!s.isClient && seg.metadata.Protocol() == openSessionRequest && s.isState(sessionAttached)" ∧
+    Mieru.Gen.FactsC19.inputDataRefusalGuard =
+      "!s.isClient && seg.metadata.Protocol() == openSessionRequest && s.isState(sessionAttached) && userName := s.UserName(); userName != \"\"" ∧
+    Mieru.Gen.FactsC19.inputDataCalls =
+      ["s.checkQuota", "s.Close", "s.recvQueue.Insert", "s.recvBuf.Insert", "s.moveRecvBufToRecvQueue",
+       "s.sendQueue.Insert", "s.forwardStateTo"] ∧
+    Mieru.Gen.FactsC19.inputDataRefusal =
+      ["s.oLock.Lock()", "s.status = statusQuotaExhausted", "s.oLock.Unlock()",
+       "log.Debugf(\"Closing %v because user %s used all the quota\", s, userName)", "s.Close()", "return nil"] ∧
+    statusQuotaExhausted = Mieru.Gen.statusQuotaExhausted.toNat := by decide
+
+/-- `Session.checkQuota`: the early-outs in the order of `Quota.checkQuota`, the clamp of the lookback
+    period and the comparison `totalBytes/1048576 > int64(quota.Megabytes())`; the model's `maxDays` is
+    `math.MaxInt64 / (24 * time.Hour)`, and with the clamp the window is never inverted and the
+    multiplication stays inside int64 (the repaired panic). -/
+theorem quota_check_regenerated :
+    Mieru.Gen.FactsC19.checkQuotaConds =
+      ["policy == nil", "policy.Name() != userName", "len(policy.Quotas()) == 0", "metricGroup == nil", "!found", "!found",
+       "days < 0", "maxDays := int64(math.MaxInt64 / (24 * time.Hour)); days > maxDays",
+       "totalBytes/1048576 > int64(quota.Megabytes())"] ∧
+    Mieru.Gen.FactsC19.checkQuotaLoop =
+      ["now := time.Now()", "days := int64(quota.Days())", "if days < 0 { days = 0 }",
+       "if maxDays := int64(math.MaxInt64 / (24 * time.Hour)); days > maxDays { days = maxDays }",
+       "then := now.Add(-time.Duration(days) * 24 * time.Hour)",
+       "totalBytes := uploadBytes.(*metrics.Counter).DeltaBetween(then, now)",
+       "totalBytes += downloadBytes.(*metrics.Counter).DeltaBetween(then, now)",
+       "if totalBytes/1048576 > int64(quota.Megabytes()) { return false, nil }"] ∧
+    maxDays = 9223372036854775807 / nsPerDay ∧ bytesPerMB = 1048576 := by decide
+
+/-- … for EVERY configured number of days. -/
+theorem quota_window_well_formed (d now : Int) :
+    0 ≤ clampDays d * nsPerDay ∧ clampDays d * nsPerDay ≤ 9223372036854775807 ∧ now - clampDays d * nsPerDay ≤ now := by
+  unfold clampDays maxDays nsPerDay
+  split
+  · omega
+  · split <;> omega
+
+/-- label names and truncation durations of the regenerated `doRollUp` calls -/
+def passOfFact (f : String × String × String × String) : Option Pass :=
+  let label : String → Option Nat := fun s =>
+    if s = "pb.RollUpLabel_NO_ROLL_UP" then some 0 else if s = "pb.RollUpLabel_ROLL_UP_TO_SECOND" then some 1
+    else if s = "pb.RollUpLabel_ROLL_UP_TO_MINUTE" then some 2 else if s = "pb.RollUpLabel_ROLL_UP_TO_HOUR" then some 3
+    else if s = "pb.RollUpLabel_ROLL_UP_TO_DAY" then some 4 else none
+  let dur : String → Option Int := fun s =>
+    if s = "rollUpToSecond" then some Mieru.Gen.rollUpToSecondNs else if s = "rollUpSecondToMinute" then some Mieru.Gen.rollUpSecondToMinuteNs
+    else if s = "rollUpMinuteToHour" then some Mieru.Gen.rollUpMinuteToHourNs else if s = "rollUpHourToDay" then some Mieru.Gen.rollUpHourToDayNs
+    else none
+  let trunc : String → Option Int := fun s =>
+    if s = "time.Second" then some 1000 else if s = "time.Minute" then some 60000 else if s = "time.Hour" then some 3600000
+    else if s = "24 * time.Hour" then some 86400000 else none
+  match label f.1, label f.2.1, dur f.2.2.1, trunc f.2.2.2 with
+  | some a, some b, some c, some d => some ⟨a, b, c, d⟩
+  | _, _, _, _ => none
+
+/-- The model's eight passes ARE the `doRollUp` calls of `Counter.rollUp`, in the code's order, with
+    the compiled repository's thresholds; the guard is `op % rollUpInterval`; `doRollUp` keeps an entry
+    iff its label differs or `time.Since(t) <= rollUpDuration` and merges into `last` iff the truncated
+    times are equal. -/
+theorem rollup_passes_regenerated :
+    Mieru.Gen.FactsC19.rollUpPasses.map passOfFact = passes.map some ∧
+    Mieru.Gen.FactsC19.rollUpGuard = "c.op%rollUpInterval != 0" ∧
+    Mieru.Gen.FactsC19.doRollUpConds =
+      ["h.GetRollUp() != fromLabel", "last != nil", "time.Since(t) <= rollUpDuration", "last != nil", "last == nil",
+       "last.GetTimeUnixMilli() == t.UnixMilli()", "last != nil"] ∧
+    Mieru.Gen.FactsC19.doRollUpTimeCalls = ["time.Since(t)", "t.Truncate(truncateDuration)"] := by decide
+
+/-- `DeltaBetween` searches for the first entry AFTER `t1` and the first AFTER `t2` and sums the entries
+    in between — the `(t1, t2]` window of `afterIdx` / `window`; it panics only for `t2 < t1` and for
+    plain counters. -/
+theorem window_search_regenerated :
+    Mieru.Gen.FactsC19.deltaBetweenPredicates =
+      ["time.UnixMilli(c.history[i].GetTimeUnixMilli()).After(t1)", "time.UnixMilli(c.history[i].GetTimeUnixMilli()).After(t2)"] ∧
+    Mieru.Gen.FactsC19.deltaBetweenLoops = ["i := t1Idx; i < t2Idx; i++ { sum += c.history[i].GetDelta() }"] ∧
+    Mieru.Gen.FactsC19.deltaBetweenPanics = ["t2.Before(t1)", "!c.timeSeries"] := by decide
 
 /-- The constants of the model are the constants of the compiled repository. -/
 theorem counter_constants :
